@@ -15,6 +15,15 @@ class Raises(Exception):
         self.name = name
 
 
+class IdentityOfValues(Exception):
+    """`a is b` / `a is not b` where neither side is a singleton (None/True/False): the outcome depends on object
+    identity (interning, caching), not on the values -- not a function of the inputs of the decision table"""
+
+    def __init__(self, text):
+        Exception.__init__(self, text)
+        self.text = text
+
+
 STR_METHODS = ('lower', 'upper', 'casefold', 'strip', 'lstrip', 'rstrip', 'title', 'swapcase', 'capitalize')
 
 
@@ -85,10 +94,11 @@ def cond(test, val, alias=None):
                         r = left == right
                     elif isinstance(op, ast.NotEq):
                         r = left != right
-                    elif isinstance(op, ast.Is):
-                        r = left is right
-                    elif isinstance(op, ast.IsNot):
-                        r = left is not right
+                    elif isinstance(op, (ast.Is, ast.IsNot)):
+                        singles = (None, True, False)
+                        if not (any(left is s_ for s_ in singles) or any(right is s_ for s_ in singles)):
+                            raise IdentityOfValues(norm(e))
+                        r = (left is right) if isinstance(op, ast.Is) else (left is not right)
                     elif isinstance(op, ast.In):
                         r = left in right
                     elif isinstance(op, ast.NotIn):
